@@ -9,12 +9,12 @@ package couchbase
 //@ props C14 C01 C02
 //@ panics.ambiguous[C14] contains(groupName, ".")
 //@ returns.plain[C14] !contains(groupName, ".")
-//@ ensures.key[C14] str(result) == helpers.Prefix + groupName + ":checkpoint:" + itoa(vbID)
+//@ ensures.key[C14,C02,C01] str(result) == helpers.Prefix + groupName + ":checkpoint:" + itoa(vbID)
 //@ ensures.reserved[C14] hasprefix(str(result), helpers.Prefix)
 //@ modifies nothing
 
 //@ func (*cbMetadata).saveVBucketCheckpoint$1
-//@ props C01 C02 C05 C14
+//@ props C01 C02 C05 C14 C20
 //@ requires s != nil && s.config != nil && s.client != nil && ctx != nil
 //@ let id = dret("couchbase.getCheckpointID", 0, 0)
 //@ let payload = uninterp("json.enc", uninterp("mk.iface", uninterp("tag.CheckpointDocument"), checkpointDocument))
@@ -24,6 +24,7 @@ package couchbase
 //@ check.payload[C01,C02] forall i int :: 0 <= i && i < dcalls("couchbase.UpsertXattrs") ==> darg("couchbase.UpsertXattrs", i, value) == darg("couchbase.UpsertXattrs", 0, value)
 //@ check.ok[C05] first == nil ==> result == nil && dcalls("couchbase.UpsertXattrs") == 1 && dcalls("couchbase.CreateDocument") == 0
 //@ check.error_reported[C05] result == nil ==> dret("couchbase.UpsertXattrs", dcalls("couchbase.UpsertXattrs") - 1, 0) == nil
+//@ check.same_ctx[C20] (forall i int :: 0 <= i && i < dcalls("couchbase.UpsertXattrs") ==> darg("couchbase.UpsertXattrs", i, ctx) == ctx) && (forall i int :: 0 <= i && i < dcalls("couchbase.CreateDocument") ==> darg("couchbase.CreateDocument", i, ctx) == ctx)
 //@ check.create_same_key[C14] dcalls("couchbase.CreateDocument") <= 1 && (dcalls("couchbase.CreateDocument") == 1 ==> darg("couchbase.CreateDocument", 0, id) == id)
 //@ modifies calls("couchbase.getCheckpointID"), calls("couchbase.UpsertXattrs"), calls("couchbase.CreateDocument"), calls("gocbcore.(*Agent).MutateIn"), calls("gocbcore.(*Agent).Set"), calls(couchbase.AsyncOp.Wait), calls(gocbcore.PendingOp.Cancel), calls(select.case), calls(couchbase.Client.GetMetaAgent), chan(uninterp("ctx.done", ctx))
 
@@ -34,11 +35,12 @@ package couchbase
 //@ modifies nothing
 
 //@ func (*cbMetadata).Save
-//@ props C01 C02 C05
+//@ props C01 C02 C05 C20
 //@ requires s != nil && s.config != nil && state != nil
 //@ let g0 = old(ncalls("errgroup.(*Group).Go"))
 //@ let s0 = old(ncalls("couchbase.(*cbMetadata).saveVBucketCheckpoint"))
 //@ loop 1
+//@   invariant.bounded_ctx[C20] forall i int :: s0 <= i && i < ncalls("couchbase.(*cbMetadata).saveVBucketCheckpoint") ==> hasdeadline(argat("couchbase.(*cbMetadata).saveVBucketCheckpoint", i, ctx))
 //@   invariant.paired ncalls("errgroup.(*Group).Go") - g0 == ncalls("couchbase.(*cbMetadata).saveVBucketCheckpoint") - s0 && ncalls("couchbase.(*cbMetadata).saveVBucketCheckpoint") >= s0
 //@   invariant.submitted forall k int :: 0 <= k && k < ncalls("couchbase.(*cbMetadata).saveVBucketCheckpoint") - s0 ==> argat("errgroup.(*Group).Go", g0 + k, f) == retat("couchbase.(*cbMetadata).saveVBucketCheckpoint", s0 + k, 0)
 //@   invariant.only_dirty forall i int :: s0 <= i && i < ncalls("couchbase.(*cbMetadata).saveVBucketCheckpoint") ==> visited[argat("couchbase.(*cbMetadata).saveVBucketCheckpoint", i, vbID)] && has(dirtyOffsets, argat("couchbase.(*cbMetadata).saveVBucketCheckpoint", i, vbID)) && dirtyOffsets[argat("couchbase.(*cbMetadata).saveVBucketCheckpoint", i, vbID)] && argat("couchbase.(*cbMetadata).saveVBucketCheckpoint", i, checkpointDocument) == state[argat("couchbase.(*cbMetadata).saveVBucketCheckpoint", i, vbID)] && argat("couchbase.(*cbMetadata).saveVBucketCheckpoint", i, s) == s
@@ -48,6 +50,7 @@ package couchbase
 //@ ensures.only_dirty[C05,C01] forall i int :: s0 <= i && i < ncalls("couchbase.(*cbMetadata).saveVBucketCheckpoint") ==> has(state, argat("couchbase.(*cbMetadata).saveVBucketCheckpoint", i, vbID)) && has(dirtyOffsets, argat("couchbase.(*cbMetadata).saveVBucketCheckpoint", i, vbID)) && dirtyOffsets[argat("couchbase.(*cbMetadata).saveVBucketCheckpoint", i, vbID)] && argat("couchbase.(*cbMetadata).saveVBucketCheckpoint", i, checkpointDocument) == state[argat("couchbase.(*cbMetadata).saveVBucketCheckpoint", i, vbID)] && argat("couchbase.(*cbMetadata).saveVBucketCheckpoint", i, s) == s
 //@ ensures.every_dirty[C05] forall vb uint16 :: has(state, vb) && has(dirtyOffsets, vb) && dirtyOffsets[vb] ==> s0 <= lastcall("couchbase.(*cbMetadata).saveVBucketCheckpoint", vbID, vb) && lastcall("couchbase.(*cbMetadata).saveVBucketCheckpoint", vbID, vb) < ncalls("couchbase.(*cbMetadata).saveVBucketCheckpoint") && argat("couchbase.(*cbMetadata).saveVBucketCheckpoint", lastcall("couchbase.(*cbMetadata).saveVBucketCheckpoint", vbID, vb), vbID) == vb
 //@ ensures.first_error[C05] result == ret("errgroup.(*Group).Wait", 0)
+//@ ensures.bounded_ctx[C20] forall i int :: s0 <= i && i < ncalls("couchbase.(*cbMetadata).saveVBucketCheckpoint") ==> hasdeadline(argat("couchbase.(*cbMetadata).saveVBucketCheckpoint", i, ctx))
 //@ modifies calls("errgroup.(*Group).Go"), calls("errgroup.(*Group).Wait"), calls("couchbase.(*cbMetadata).saveVBucketCheckpoint"), calls(errgroup.WithContext)
 
 // ---------- membership documents: keys under the reserved prefix (C14) ----------
@@ -59,9 +62,10 @@ package couchbase
 //@ modifies calls("couchbase.CreatePath"), calls("gocbcore.(*Agent).MutateIn"), calls(couchbase.AsyncOp.Wait), calls(gocbcore.PendingOp.Cancel), calls(select.case), calls(couchbase.Client.GetMetaAgent), chan(uninterp("ctx.done", ctx))
 
 //@ func (*cbMembership).heartbeat
-//@ props C14
+//@ props C14 C20
 //@ requires h != nil && h.client != nil && h.membershipConfig != nil
 //@ check.key[C14] dcalls("couchbase.UpdateDocument") == 1 && darg("couchbase.UpdateDocument", 0, id) == h.id
+//@ check.bounded_ctx[C20] hasdeadline(darg("couchbase.UpdateDocument", 0, ctx))
 //@ modifies calls("couchbase.UpdateDocument"), calls("gocbcore.(*Agent).MutateIn"), calls(couchbase.AsyncOp.Wait), calls(gocbcore.PendingOp.Cancel), calls(select.case), calls(couchbase.Client.GetMetaAgent), calls("time.(Time).UnixNano")
 
 //@ func (*cbMembership).updateIndex
@@ -98,4 +102,4 @@ package couchbase
 //@ ensures.keys_reserved[C14] result != nil && typeis(result, "*cbMembership") && hasprefix(str(cbm.id), helpers.Prefix) && hasprefix(str(cbm.instanceAll), helpers.Prefix)
 //@ ensures.keys_shape[C14] str(cbm.instanceAll) == helpers.Prefix + config.Dcp.Group.Name + ":" + "instance" + ":all"
 //@ ensures.registered[C14] dcalls("couchbase.(*cbMembership).register") == 1 && darg("couchbase.(*cbMembership).register", 0, h) == cbm
-//@ modifies calls("couchbase.(*cbMembership).register"), calls("couchbase.(*cbMembership).createIndex"), calls("couchbase.CreatePath"), calls("couchbase.UpdateDocument"), calls("couchbase.CreateDocument"), calls("gocbcore.(*Agent).MutateIn"), calls("gocbcore.(*Agent).Set"), calls(couchbase.AsyncOp.Wait), calls(gocbcore.PendingOp.Cancel), calls(select.case), calls(couchbase.Client.GetMetaAgent), calls("couchbase.(*cbMembership).startHeartbeat"), calls("couchbase.(*cbMembership).startMonitor"), calls("time.(Time).UnixNano")
+//@ modifies calls("couchbase.(*cbMembership).register"), calls("couchbase.(*cbMembership).createIndex"), calls("couchbase.CreatePath"), calls("couchbase.UpdateDocument"), calls("couchbase.CreateDocument"), calls("gocbcore.(*Agent).MutateIn"), calls("gocbcore.(*Agent).Set"), calls(couchbase.AsyncOp.Wait), calls(gocbcore.PendingOp.Cancel), calls(select.case), calls(couchbase.Client.GetMetaAgent), calls("couchbase.(*cbMembership).startHeartbeat"), calls("couchbase.(*cbMembership).startMonitor"), calls("time.(Time).UnixNano"), calls(EventBus.Bus.SubscribeAsync)
